@@ -183,7 +183,17 @@ def worker_main(prop_id, tier, w, nworkers, seed, outfile):
         # 2. enumeration part
         if hasattr(mod, "enumerate_cases"):
             for i, case in enumerate(mod.enumerate_cases(tier, w, nworkers)):
-                oc = mod.run_case(case)
+                try:
+                    oc = mod.run_case(case)
+                except isolate.HarnessError as ex:
+                    if "did not finish" not in str(ex):
+                        raise
+                    # inconclusive (time budget under load): never a violation; the driver reports INCONCLUSIVE
+                    st["timeouts"] = st.get("timeouts", 0) + 1
+                    st.setdefault("timeout_notes", []).append(str(ex)[:200])
+                    if st["timeouts"] > 5:
+                        break
+                    continue
                 account(case, oc)
                 st["enumerated"] += 1
                 fresh = judge(case, oc)
